@@ -69,6 +69,15 @@ def inputs(rng, thorough):
     keep = [l for l in t4.splitlines() if structures.is_atom(l) and l[17:20] != "HOH" and (l[21] == "A" or l[17:20] == "MTX")]
     keep = [(l[:21] + "A" + " 900" + l[26:]) if (l[17:20] == "MTX" and l[21] == "B") else l for l in keep]
     out.append(("4DFR chain A with both methotrexates as chain A (161 and 900)", "\n".join(keep) + "\nEND\n"))
+    # three alternates at one position: A = amide, B = acid (complete), C = acid lacking one carboxyl oxygen (C must be completed from B, not from A)
+    pm, pmd = structures.altloc_point_mutant(fr, lambda r: True, first="amide", tags=("A", "B"))
+    if pm:
+        third = []
+        for l in pm.splitlines():
+            third.append(l)
+        extra = [l[:16] + "C" + l[17:] for l in pm.splitlines() if structures.is_atom(l) and l[16] == "B" and l[12:16].strip() not in ("OD2", "OE2")]
+        idx = max(i for i, l in enumerate(third) if structures.is_atom(l) and l[16] == "B")
+        out.append((f"1HPX[18:70] {pmd}, C=acid lacking one carboxyl oxygen", "\n".join(third[:idx + 1] + extra + third[idx + 1:]) + "\n"))
     # two models of a complex: as deposited, and with the second chain pulled 8 A away (interface groups are buried in one model, exposed in
     # the other: their heavy-atom counts lie on different sides of the limits of the buried-fraction ramp)
     sg = "\n".join(l for l in structures.read("3SGB-subset.pdb").splitlines() if structures.is_atom(l) or l[:3] == "TER") + "\n"
@@ -168,9 +177,11 @@ def run(chk: common.Check):
                     for at in mol.conformations[c].atoms:
                         if (at.chain_id, at.res_num, at.icode) == k[:3]:
                             resn.setdefault(c, at.res_name)
-                if len(set(resn.values())) == 1 and len(resn) == len(names):
-                    found.append(("conformation-not-completed", f"{name}: atom {k[3]} of {next(iter(where))[1]} {k[1]}{k[0]} is present in {sorted(w[0] for w in where)} only, although every "
-                                  f"conformation has that residue", {"case": name, "atom": k, "pdb_text": text if len(text) < 30000 else None}))
+                rn = next(iter(where))[1]
+                same = {c for c in names if resn.get(c) == rn}       # conformations holding this residue with the same residue type
+                if same - {w[0] for w in where}:
+                    found.append(("conformation-not-completed", f"{name}: atom {k[3]} of {rn} {k[1]}{k[0]} is present in {sorted(w[0] for w in where)} only, although "
+                                  f"{sorted(same)} hold that residue with that residue type", {"case": name, "atom": k, "pdb_text": text if len(text) < 30000 else None}))
                     break
         # ---- topping up never merges residue types
         for c in names:
